@@ -281,7 +281,7 @@ func c04Exec(c c04Case, st *lab.Stats) *lab.Fail {
 		st.Inconclusive(err.Error())
 		return nil
 	}
-	defer cl.Close()
+	defer cl.Abort()
 	var buf []byte
 	for _, it := range c.Items {
 		buf = append(buf, it.Req.Bytes()...)
